@@ -318,6 +318,8 @@ def merged_fields(fields):
         if not v:
             continue
         lk = k.lower()
+        if lk in vals and lk in (b"host", b"content-type", b"if-modified-since", b"if-none-match", b"http2-settings"):
+            continue            # single-valued fields: an (identical) repeat is dropped by the parser
         if lk not in vals:
             vals[lk] = [k, [v]]
             order.append(lk)
@@ -466,7 +468,6 @@ def check_env(c, sh, env, what):
     elif b"CONTENT_LENGTH" in d:
         return "%s: CONTENT_LENGTH sent to an authorizer" % what
     # client fields
-    upgrade_ok = bool(c.fl & F_UPGRADE)
     exp = []
     te_present = any(k.lower() == b"transfer-encoding" for k, _ in sh["fields"])
     for k, v in merged_fields(sh["fields"]):
@@ -491,8 +492,7 @@ def check_env(c, sh, env, what):
     optional = {b"HTTP_HOST"}                      # value is normalised by the host policy (C01/C02)
     if te_present:
         optional.add(b"HTTP_CONTENT_LENGTH")       # dropped when Transfer-Encoding decides the framing
-    if not upgrade_ok or c.op == "cgi":
-        optional.add(b"HTTP_UPGRADE")              # hop-by-hop: removed unless upgrade is enabled
+    optional.add(b"HTTP_UPGRADE")                  # hop-by-hop: removed unless the upgrade is honoured
     gm = sorted((k, v) for k, v in got if k not in optional)
     em = sorted((k, v) for k, v in exp if k not in optional)
     if gm != em:
@@ -524,7 +524,8 @@ def check_body(c, sh, body, closed, what, framed):
         return "%s: %d of %d received body bytes were passed on" % (what, len(body), delivered)
     if framed:
         complete = (length is not None and delivered == length) or (length is None and done)
-        upgrade = bool(c.fl & F_UPGRADE) and any(k.lower() == b"upgrade" for k, _ in sh["fields"])
+        upgrade = bool(c.fl & F_UPGRADE) and (bool(c.fl & F_H2EXT) or
+                                              any(k.lower() == b"upgrade" for k, _ in sh["fields"]))
         if complete and not closed and not upgrade:
             return "%s: body complete but the stream is not terminated" % what
         if closed and not complete:
@@ -548,6 +549,10 @@ def oracle(line, out):
     c = Case(line.split(" P ")[0])
     parsed, res = parse_obs(out)
     if parsed is None:
+        return None
+    if c.op in ("fcgi", "scgi", "uwsgi") and " len=-1 " in parsed and not c.sched[0].startswith("c"):
+        # CGI-style gateways need CONTENT_LENGTH: gw_handle_subrequest() collects a chunked body first
+        # (sched "c<n>") or answers 411 when streaming; create_env with an open length is not a server state
         return None
     if "ERROR" in res:
         return "harness: temp-file / drain error: " + res[:60]
@@ -629,6 +634,8 @@ def check_proxy(c, sh, req):
     if c.fl & F_AUTH:
         if hd.get(b"content-length") != [b"0"] or req["body"]:
             return "proxy: authorizer request with a body"
+    elif c.fl & F_H2EXT:
+        pass                    # extended CONNECT: a tunnel, not a framed request body
     else:
         if req["chunked"]:
             if b"content-length" in hd:
@@ -797,10 +804,12 @@ def gen_cfg(rng, op):
              docroot=rng.choice([None, None, None, b"/var/www", b"/var/www/", b"/", b""]),
              strip=rng.choice([None, None, None, b"/app", b"/ap", b"/app/x", b"", b"/"]),
              basedir=rng.choice([b"/srv/www", b"/srv/www/", b"/"]),
-             pinfo=rng.choice([0, 0, 0, 0, 2, 3, 5, 40]),
+             pinfo=rng.choice([0, 0, 0, 0, 1, 1, 2, 3]),
              srv=rng.choice(SRVS), sname=rng.choice(SNAMES), raddr=rng.choice(RADDRS),
              rport=rng.choice([4711, 1, 65535, 0]), tag=rng.choice([b"lighttpd/1.4.82", b"lighttpd", None, b""]),
              renv=rng.choice(RENVS))
+    if not (fl & F_CHECKLOCAL or op == "cgi") or op == "proxy":
+        d["pinfo"] = 0          # the filesystem path-info split only happens on the check-local route
     if op == "proxy":
         px = str(rng.choice([0, 0, 1, 2, 4, 6, 16, 23, 7]))
         if rng.random() < 0.15:
